@@ -210,3 +210,30 @@ package entry
 //@   requires identity != nil && validAnyIO(io)
 //@   replay verifyentry
 //@   requires e == nil || e.Clock != nil
+
+// ---- entry.go: creating and writing entries ----
+//@ define sameEntryCore(a iface.IPFSLogEntry, b iface.IPFSLogEntry) = a.LogID == b.LogID && a.Payload == b.Payload && a.V == b.V && a.Key == b.Key && a.Sig == b.Sig && a.Identity == b.Identity && a.Hash == b.Hash && a.Clock.Time == b.Clock.Time && a.Clock.ID == b.Clock.ID && (distinctCids(b.Next) ==> sameCids(a.Next, b.Next)) && (distinctCids(b.Refs) ==> sameCids(a.Refs, b.Refs))
+//@ func Normalize
+//@   requires validEntry(e)
+//@   ensures result != nil && fresh(result) && result.Clock != nil && fresh(result.Clock)
+//@   ensures result.LogID == e.LogID && result.Payload == e.Payload && result.Next == e.Next && result.V == e.V && result.Key == e.Key && result.Identity == e.Identity && result.AdditionalData == e.AdditionalData
+//@   ensures result.Clock.Time == e.Clock.Time && result.Clock.ID == e.Clock.ID
+//@   ensures e.V > 1 ==> result.Refs == e.Refs
+//@   ensures e.V <= 1 ==> result.Refs == nil
+
+//@ func ToMultihashWithIO
+//@   requires e == nil || (validEntry(e) && (e.Identity == nil || e.Identity.Signatures != nil))
+//@   requires validAnyIO(io)
+//@   ensures e == nil || ipfsInstance == nil ==> err != nil
+
+//@ func CreateEntryWithIO
+//@   requires validAnyIO(io)
+//@   requires data == nil || typeis(data, "*Entry")
+//@   requires identity == nil || (identity.Provider != nil && identity.Signatures != nil)
+//@   ensures ipfsInstance == nil || identity == nil || data == nil || ref(data) == nil ==> err != nil
+//@   ensures err == nil ==> validEntry(result0) && fresh(result0)
+//@   ensures [created-entry-keeps-log-id-and-payload] err == nil ==> result0.LogID == data.LogID && result0.Payload == data.Payload && result0.V == 2
+//@   ensures [created-entry-keeps-clock] err == nil && data.Clock != nil && len(data.Clock.ID) > 0 ==> result0.Clock.Time == data.Clock.Time && result0.Clock.ID == data.Clock.ID
+//@   ensures [created-entry-keeps-next] err == nil && distinctCids(data.Next) ==> sameCids(result0.Next, data.Next)
+//@   ensures [created-entry-keeps-refs] err == nil && distinctCids(data.Refs) ==> sameCids(result0.Refs, data.Refs)
+//@   ensures [created-entry-is-signed-by-identity] err == nil ==> result0.Key == identity.PublicKey
